@@ -3,12 +3,12 @@
    property ExtOK, proved here for: SkipQuoted, ParseCallIDVal, ParseUIntVal / ParseExpiresVal,
    ParseCLenVal, ParseCSeqVal, ParseNameAddrPVal for every header kind (= ParseFromVal,
    ParseOneContact), ParseOnePAI, ParseAllContactValues, ParseAllPAIValues, ParseFLine, ParseHdrLine (any header, with all eight
-   header specific value parsers under it), ParseTokenParam for
+   header specific value parsers under it), ParseHeaders, ParseTokenParam for
    every flag set without POptInputEndF (with that flag every prefix is by definition the whole
    input).  For each: every buffer, start offset, object state (so also resumed states) and chunk
-   schedule.  PARTIAL: not yet discharged for ParseHeaders,
+   schedule.  PARTIAL: not yet discharged for
    ParseAllURIParams, ParseAllURIHdrs (correspondence run + resume oracle only). *)
-From Sipsp Require Import Harness Resume Ext ExtLeaf ExtCSeq ExtTok ExtNameAddr ExtNested ExtLists ExtFLine ExtHdrLine.
+From Sipsp Require Import Harness Resume Ext ExtLeaf ExtCSeq ExtTok ExtNameAddr ExtNested ExtLists ExtFLine ExtHdrLine ExtHeaders ExtMsg.
 Theorem C02_every_schedule_from_one_step :
   forall (S : Type) (P : list byte -> N -> S -> res S) (obs : S -> list Z) (Inv : N -> S -> Prop),
   ExtOK P obs Inv ->
@@ -63,3 +63,7 @@ Proof. exact (fun b k s0 cuts => resume_schedule _ _ _ fline_ExtOK b k s0 cuts I
 Theorem C02_header_line : forall b k s0 cuts, k <= nnat (length b) -> sorted_from (N.to_nat k) cuts ->
   agrees parse_hdrline (fun x => obs_hdr (hx_h x) ++ obs_opt_phvals (hx_pv x)) b cuts (chunked_trace parse_hdrline b cuts k s0) k s0.
 Proof. exact (fun b k s0 cuts => resume_schedule _ _ _ hdrline_ExtOK b k s0 cuts I). Qed.
+
+Theorem C02_header_block : forall b k s0 cuts, k <= nnat (length b) -> sorted_from (N.to_nat k) cuts ->
+  agrees parse_headers (fun x => obs_hdrlst (hs_l x) ++ obs_opt_phvals (hs_pv x)) b cuts (chunked_trace parse_headers b cuts k s0) k s0.
+Proof. exact (fun b k s0 cuts => resume_schedule _ _ _ headers_ExtOK b k s0 cuts I). Qed.
